@@ -5,6 +5,7 @@ package health
 // Contracts for govc (see /verif/DESIGN.md). Comment-only file: no executable code.
 
 //@ func (p *Prober) Stop
+//@   ensures stopped: p.hc != nil ==> abool(p.stopped)
 //@   assigns abool(p.stopped)
 //@ func (p *Prober) Start
 //@   assigns spawned[*]
